@@ -14,7 +14,7 @@ Calls to functions defined in the program are analysed in the caller's context (
 what they can reach.  Unsigned arithmetic that cannot be shown wrap-free yields an unconstrained value.
 """
 from math import gcd
-from .facts import strip, cval, show, callee_name
+from .facts import strip, cval, show, callee_name, walk
 from . import lpint as _lpint
 
 UMAX = (1 << 64) - 1
@@ -1256,7 +1256,12 @@ class LinAnalysis:
         if op == "+":
             return v
         if op == "!":
-            t = self.truth(e["e"], st, fr)
+            # the operand was evaluated above (once: it may assign); its truth comes from that value, and from the
+            # structure only when evaluating again has no effect
+            t = self._truth_val(v, st)
+            if t is None and not any(n.get("k") == "call" or (n.get("k") == "un" and n.get("op") in ("++", "--")) or
+                                     (n.get("k") == "bin" and n.get("op", "").endswith("=") and n["op"] not in ("==", "!=", "<=", ">=")) for n in walk(e["e"])):
+                t = self.truth(e["e"], st, fr)
             if t is None:
                 return self.fresh(st, "b", 0, 1)
             return Lin.const(0 if t else 1)
